@@ -108,6 +108,13 @@ fn verif_grid() {
         let e = format!("SELECT {}a FROM t", "-".repeat(depth));
         for (k, text) in [a, b, c, d, e].into_iter().enumerate() { g.case(&format!("nesting-{}-{}", depth, k), move || total(&text)); }
     }
+    // patterns that are each a regular expression, alone and several in one table; very large ones are an error at most
+    for (i, text) in ["CREATE TABLE t(a = '(\\\\w{1,100})', b = '(\\\\w{1,100}) x', c = '(\\\\w{1,100}) y', a[1] => x TEXT, b[1] => y TEXT, c[1] => z TEXT);",
+                      "CREATE TABLE t(a = '(\\\\w{150})', b = '(\\\\w{150})z', a[1] => x TEXT, b[1] => y TEXT);",
+                      "CREATE TABLE t(a = '(\\\\w{1000})', a[1] => x TEXT);", "CREATE TABLE t(a = '((((a{10}){10}){10}){10})', a[1] => x TEXT);", "CREATE TABLE t(a = 'a{999999999}', a[0] => x TEXT);",
+                      "CREATE TABLE t(a = '(?i)[\\\\p{L}\\\\p{N}]{1,50}', b = '[\\\\p{L}]{60}', c = '\\\\pL{70}', a[0] => x TEXT);"].iter().enumerate() {
+        g.case(&format!("large-patterns-{}", i), move || total(text));
+    }
     // rejected with an error, not a crash and not accepted
     for (i, text) in ["CREATE TABLE t(line = '(unclosed', line[1] => x TEXT);", "CREATE TABLE t({ } => x INT);", "SELECT SUM(a, b) FROM t", "SELECT COUNT(a, b, c) FROM t",
                       "SELECT PERCENTILE(a) FROM t", "SELECT STRING_AGG(a) FROM t", "SELECT 99999999999999999999 FROM t", "SELECT a FROM t LIMIT 99999999999999999999",
